@@ -175,8 +175,11 @@ class Load(Suite):
                     es.append((ln, "l", tgt))
                     present.append(ln[2:])
                     present.append(ln[2:].rsplit("/", 1)[0])
-            if rng.random() < 0.05:
+            k = rng.random()
+            if k < 0.05:
                 es = [e for e in es if e[0] != "R"]       # loader root itself missing unless implied
+            elif k < 0.08:
+                es = [("R", "f", b"not a directory\n")]    # loader root is a regular file
             es = normalise(es + sentinels())
             if bucket == "escape" or (bucket != "repos" and rng.random() < 0.25):
                 req = rng.choice(ESCAPES)
@@ -223,8 +226,7 @@ class Load(Suite):
         for c in cases:
             r = impl.get(c["id"])
             if r is None:
-                fails[c["id"]] = "no reply"
-                continue
+                continue        # no reply is a harness fault: reported by the runner as a broken correspondence, not as a property failure
             if r.get("panic") or not r["out"].startswith("( ok"):
                 continue
             ex = r.get("extra") or {}
